@@ -126,6 +126,14 @@ func implStep(line string) (out string) {
 			}
 		}
 	}()
+	if os.Getenv("VERIF_SLOW") != "" {
+		t0 := time.Now()
+		defer func() {
+			if d := time.Since(t0); d > 300*time.Millisecond {
+				fmt.Fprintf(os.Stderr, "SLOW %s %s -> %s\n", d.Round(time.Millisecond), clipS(line)[:min(len(line), 60)], clipS(out)[:min(len(out), 40)])
+			}
+		}()
+	}
 	return h(f[1:])
 }
 
@@ -288,6 +296,12 @@ func outcomeClass(s string) string {
 	}
 	if f[0] == "err" && len(f) > 1 {
 		return "err:" + f[1]
+	}
+	if f[0] == "ok" && len(f) > 1 && strings.HasPrefix(f[1], "deleted=") {
+		if f[1] == "deleted=-" {
+			return "cleaner:nothing-deleted"
+		}
+		return "cleaner:deleted"
 	}
 	if f[0] == "ok" && len(f) > 1 && (f[1] == "nil" || f[1] == "-") {
 		return "ok:" + f[1]
